@@ -40,7 +40,7 @@ ENTRIES = {
     "C07": {
         "text": "TLC enumerates fraud-proof constructions over the symbolic square (spec/SqBefp.tla): the honest "
                 "prover's proof for every axis, every index of both halves, every subset of at least K-1 slots and "
-                "proof-axis mixes, on the honestly encoded square and on squares with one overwritten cell per quadrant, "
+                "proof-axis mixes, on the honestly encoded square, on squares with one overwritten cell per quadrant and on squares whose producer computed a first-quadrant row's / column's parity from a permutation of its data shares (reconstruction gives valid but unsorted namespaces), "
                 "with one adversarial edit (swap / duplicate / substitute proven shares with valid proofs, altered "
                 "share, namespace or proof position, relabelled index/axis, wrong length). The spec demands reject "
                 "whenever the indicated committed line is a codeword and accept for the honest prover on a corrupted "
